@@ -30,6 +30,7 @@
 
 SimKnobs K;
 int sim_stack_junk = -1;
+bool sim_time_capped;
 SimStats S;
 SimHooks sim_hooks;
 bool sim_trace;
@@ -401,7 +402,10 @@ int sim_run(void) {
             if (t->state == T_RUNNABLE) cand[n++] = t;
         }
         if (n == 0) {
-            if (next_wake != UINT64_MAX) { now_us = next_wake; continue; }
+            if (next_wake != UINT64_MAX) {
+                if (K.max_sim_us && next_wake > K.max_sim_us) { rc = 0; sim_time_capped = true; break; }   /* nothing but far-future timers left */
+                now_us = next_wake; continue;
+            }
             rc = 0; break;
         }
         if (++S.steps > K.max_steps) { rc = 1; break; }
